@@ -125,6 +125,101 @@ def g_package():
     return run
 
 
+def g_tp_fixed_point(maps=('xVlogK_iter_2n', 'xVlogK_iter')):
+    """one application of xVlogK_iter_2n / xVlogK_iter (the maps iterated by the T-P flash) on symbolic (x, V, ln K)
+    with uninterpreted activity and fugacity coefficients; the fixed-point solver is taken at its contract (it
+    returns a fixed point) and at a fixed point every chemical's liquid and vapour fugacities agree
+    (K_i phi_i(y) = pcf_i Psat_i gamma_i(x) / P) and the liquid composition closes the material balance
+    x_i (1 + V (K_i - 1)) = z_i"""
+    def run(E):
+        import math
+        import numpy as np
+        vle = C.mod('thermosteam.equilibrium.vle')
+        b = C.mod('thermosteam.equilibrium.binary_phase_fraction')
+        from . import c20
+        n = 2
+        which = E.pick(list(maps), 'map')
+        T, P = 350.0, 101325.0
+
+        def f_gamma(x, T_, *a):
+            E.stub_called('gamma')
+            out = [E.uf(f'gamma{i}', *list(x)) for i in range(n)]
+            for g in out:
+                E.assume(g > 0)
+            return C.array(E, out) if not E.concrete else np.array(out, dtype=float)
+
+        def f_phi(y, T_, P_):
+            out = [E.uf(f'phi{i}', *list(y)) for i in range(n)]
+            for g in out:
+                E.assume(g > 0)
+            return C.array(E, out) if not E.concrete else np.array(out, dtype=float)
+        x, K, c, z = [], [], [], []
+        for i in range(n):
+            for lst, nm, nice in ((x, 'x', (0.1, 0.9)), (K, 'K', (0.05, 20)), (c, 'c', (0.05, 20)), (z, 'z', (0.1, 0.9))):
+                v = E.real(f'{nm}{i}', nice=nice)
+                E.assume(v > 0)
+                lst.append(v)
+        E.assume(E.eq(sum(z), 1.0))
+        E.assume(E.eq(sum(x), 1.0))
+        V = E.real('V', lo=0, hi=1, nice=(0.2, 0.8))
+        E.assume(E.all([V > 0, V < 1]) if not E.concrete else 0 < V < 1)
+        z_light = z_heavy = 0.0
+        if which == 'xVlogK_iter':
+            real = b.flx.real if isinstance(b.flx, c20._RRFlx) else b.flx
+            if not E.concrete:
+                C.setg(b, 'flx', c20._RRFlx(E, real))
+        if E.concrete:
+            L = [math.log(k) for k in K]
+            vec = np.array(x + [V] + L, dtype=float)
+            carr, zarr = np.array(c, dtype=float), np.array(z, dtype=float)
+        else:
+            L = [E.uf('ln', k) for k in K]
+            for l, k in zip(L, K):
+                E.assume(E.eq(E.uf('exp', l), k), 'exp(ln K) == K')
+            vec = C.array(E, x + [V] + L)
+            carr, zarr = C.array(E, c), C.array(E, z)
+        try:
+            if which == 'xVlogK_iter_2n':
+                new = vle.xVlogK_iter_2n(vec, carr, T, P, zarr, f_gamma, (), f_phi, n, None, None)
+            else:
+                new = vle.xVlogK_iter(vec, carr, T, P, zarr, z_light, z_heavy, f_gamma, (), f_phi, n, None, None)
+        except (ZeroDivisionError, FloatingPointError):
+            raise core.PathAbort('degenerate partition coefficient (K = 1)')
+        new = list(new)
+        # what the map computes from the state it was given
+        y0 = [xi * ki for xi, ki in zip(x, K)]
+        sy = sum(y0)
+        y = [v / sy for v in y0]
+        gx = [E.uf(f'gamma{i}', *x) for i in range(n)]
+        py = [E.uf(f'phi{i}', *y) for i in range(n)]
+        Knew = [c[i] * gx[i] / py[i] for i in range(n)]
+        if E.concrete:
+            fixed = all(core._concrete_eq(a, b_, 1e-9) for a, b_ in zip(new, list(vec)))
+            E.assume(fixed, 'the solver returned a fixed point of the map')
+        else:
+            for i in range(n):
+                E.assume(E.implies(E.eq(E.uf('ln', Knew[i]), L[i]), E.eq(Knew[i], K[i])), 'ln is injective')
+                E.assume(Knew[i] >= 1e-16, 'K above the 1e-16 floor')
+            E.assume(E.all([E.eq(a, b_) for a, b_ in zip(new, x + [V] + L)]), 'the solver returned a fixed point of the map')
+        if not E.concrete:
+            # lemma (true for 0 < V < 1 and K > 0, stated to spare the solver a nonlinear derivation)
+            for i in range(n):
+                E.assume((1.0 - V) + V * K[i] > 0, '1 + V (K - 1) > 0')
+        E.observe('V', V)
+        sig = which
+        E.prove('fixed-point-of-the-flash-iteration-has-equal-liquid-and-vapour-fugacities',
+                E.all([E.eq(K[i] * py[i], c[i] * gx[i]) for i in range(n)]), sig=sig)
+        # stated on the values the map RETURNED (which the fixed-point assumption equates with x, V, K): sparing the
+        # solver the substitution through the rational closed form of V
+        xn, Vn = new[:n], new[n]
+        if not E.concrete:
+            for i in range(n):
+                E.assume((1.0 - Vn) + Vn * Knew[i] > 0, '1 + V (K - 1) > 0 (holds since V, K equal the positive inputs)')
+        E.prove('fixed-point-of-the-flash-iteration-closes-the-material-balance',
+                E.all([E.eq(xn[i] * (1.0 + Vn * (Knew[i] - 1.0)), z[i]) for i in range(n)]), sig=sig)
+    return run
+
+
 def g_phase_boundary():
     """(iv): the bubble/dew comparison of set_thermal_condition"""
     def run(E):
@@ -186,6 +281,7 @@ def groups(tier):
     q = tier == 'quick'
     g = {
         'solver-objects-of-the-streams-package': (g_package(), dict(max_paths=100000)),
+        'tp-iteration-fixed-point': (g_tp_fixed_point(), dict(qtimeout_ms=20000, stubs_required=('gamma',))),
         'spec-bookkeeping': (g_bookkeeping(['TP', 'TV', 'PV'], [1, 2] if not q else [1], ((0, 0), (1, 1)), ('both',)),
                              dict(max_paths=1000000, task_budget_s=120)),
         'spec-bookkeeping-TP-multicomponent': (g_bookkeeping(['TP'], [2], ((0, 0), (1, 1)), ('both',)), dict(max_paths=1000000, task_budget_s=120)),
